@@ -626,7 +626,11 @@ def lifecycle_walks(ck, binary, mode, nwalks):
     observation is replayed through the composed state machine, in the direction `mode`'s property demands."""
     ck.add_tlc(vlib.mc("MC_Rpm", "MC_Rpm.cfg", ck.scratch, workers=4))
     wtr = ck.scratch / f"walks_{mode}.ndjson"
-    vlib.run_harness(binary, ["walk", "--out", wtr, "--seed", ck.seed, "--walks", nwalks], timeout=6000)
+    # tampering with the signature header itself (its recorded header digest, the signature packet) belongs to the
+    # walks of C02 (no success on it) and C08 (a later sign / clear records the true digest again); C10 quantifies
+    # over sign / clear / re-parse histories of valid packages only
+    vlib.run_harness(binary, ["walk", "--out", wtr, "--seed", ck.seed, "--walks", nwalks,
+                              "--sigtamper", 0 if mode == "C10" else 1], timeout=6000)
     wev = read_ndjson(wtr)
     wid = {e["id"]: e for e in wev}
     weps = episodes(wev)
